@@ -11,7 +11,7 @@ import (
 	"deps.dev/util/resolve/maven"
 	"deps.dev/util/resolve/npm"
 	"deps.dev/util/resolve/pypi"
-	"deps.dev/util/resolve/verifhook"
+	"deps.dev/util/semver/verifhook"
 	"verif/sim/gen"
 	"verif/sim/kernel"
 	"verif/sim/uni"
